@@ -55,6 +55,49 @@ def plain_models(ctx: Ctx) -> list[Cls]:
     return sorted(out, key=lambda c: c.qualname)
 
 
+def latch_names(ctx: Ctx) -> dict:
+    """{'flag': attribute tested by ImmutableBaseModel.__setattr__, 'freeze': names of the methods
+    that set it to True, 'thaw': names of the methods that set it to False} - found from the code,
+    not from the names."""
+    cached = ctx.__dict__.get("_c18_latch")
+    if cached is not None:
+        return cached
+    base = ctx.repo.classes.get("ropt.config.utils.ImmutableBaseModel")
+    out = {"flag": None, "freeze": set(), "thaw": set()}
+    if base is not None:
+        sa_ = base.methods.get("__setattr__")
+        if sa_ is not None:
+            for n in nodes_in(sa_, ast.If):
+                if any(isinstance(x, ast.Raise) for s_ in n.body for x in ast.walk(s_)):
+                    for x in ast.walk(n.test):
+                        if isinstance(x, ast.Attribute) and isinstance(x.value, ast.Name) and x.value.id == sa_.positional[0]:
+                            out["flag"] = x.attr
+        for m in base.methods.values():
+            for n in nodes_in(m, ast.Assign):
+                for t in n.targets:
+                    if isinstance(t, ast.Attribute) and t.attr == out["flag"] and isinstance(n.value, ast.Constant) and isinstance(n.value.value, bool):
+                        out["freeze" if n.value.value else "thaw"].add(m.name)
+    if out["flag"] is None or not out["freeze"] or not out["thaw"]:
+        raise AnalysisError("immutability latch of ImmutableBaseModel (flag tested in __setattr__, methods setting it) not found")
+    ctx.__dict__["_c18_latch"] = out
+    return out
+
+
+def _latch_nodes(ctx: Ctx, cfg, f: Func, freeze: bool):
+    """CFG nodes of f that freeze (or thaw) the model: calls of the latch methods on self, or a
+    direct store of the flag."""
+    L = latch_names(ctx)
+    out = set()
+    for name in L["freeze" if freeze else "thaw"]:
+        out |= _self_call_nodes(cfg, f, name)
+    if f.positional:
+        for n in nodes_in(f, ast.Assign):
+            for t in n.targets:
+                if isinstance(t, ast.Attribute) and t.attr == L["flag"] and isinstance(t.value, ast.Name) and t.value.id == f.positional[0] and isinstance(n.value, ast.Constant) and n.value.value is freeze:
+                    out.update(cfg.node_containing(n))
+    return out
+
+
 def _self_call_nodes(cfg, f: Func, name: str):
     out = set()
     if not f.positional:
@@ -78,10 +121,10 @@ def c18_1(ctx: Ctx) -> RuleResult:
     for c in config_classes(ctx):
         for m in c.methods.values():
             cfg = cfg_of(ctx.repo, m)
-            mut = _self_call_nodes(cfg, m, "_mutable")
+            mut = _latch_nodes(ctx, cfg, m, False)
             if not mut:
                 continue
-            imm = _self_call_nodes(cfg, m, "_immutable")
+            imm = _latch_nodes(ctx, cfg, m, True)
             pf = PathFinder(cfg, dataflow_of(ctx.repo, m))
             for n in sorted(mut, key=lambda n: n.id):
                 path = pf.find_path(n, lambda x: x is cfg.exit, blocked=lambda x: x in imm)
@@ -303,7 +346,7 @@ def c18_3(ctx: Ctx) -> RuleResult:
         est = []
         for m in vals:
             cfg = cfg_of(ctx.repo, m)
-            imm = _self_call_nodes(cfg, m, "_immutable")
+            imm = _latch_nodes(ctx, cfg, m, True)
             if not imm:
                 continue
             pf = PathFinder(cfg, dataflow_of(ctx.repo, m))
